@@ -4,11 +4,14 @@
 (* the generated wiring append(constructorMiddleware, provider.GetMiddleware()...). *)
 (* A middleware kind is "obs" (observe), "arg" (rewrite the argument to    *)
 (* arg+1 before calling next), "res" (rewrite the result to res*2 after    *)
-(* next returned), "err" (replace the error by its own id).                *)
+(* next returned), "err" (replace the error by its own id), "clr" (clear   *)
+(* the error through Results.SetError(nil)), "twice" (a retry / fallback   *)
+(* layer: calls next, calls next again with arg+100, returns what the      *)
+(* FIRST call returned).                                                   *)
 (***************************************************************************)
 EXTENDS Integers, Sequences, FiniteSets, TLC, Json, SequencesExt
 CONSTANTS MaxLen
-Kinds == {"obs", "arg", "res", "err"}
+Kinds == {"obs", "arg", "res", "err", "clr", "twice"}
 Lists(n) == UNION {[1..k -> Kinds] : k \in 0..n}
 \* effective chain, innermost first: constructor list, then provider list, then AddMiddleware calls
 Chain(ctor, prov, added) == ctor \o prov \o added
@@ -19,10 +22,11 @@ Call(chain, i, arg) ==       \* call into layer i (i = 0 is the handler)
   ELSE LET k == chain[i]
            a == IF k = "arg" THEN arg + 1 ELSE arg
            inner == Call(chain, i - 1, a)
+           second == IF k = "twice" THEN Call(chain, i - 1, a + 100) ELSE [log |-> <<>>, res |-> 0, err |-> 0, handlerArg |-> <<>>]
            r == IF k = "res" THEN inner.res * 2 ELSE inner.res
-           e == IF k = "err" THEN i ELSE inner.err
-       IN [log |-> <<[ev |-> "enter", layer |-> i, arg |-> arg]>> \o inner.log \o <<[ev |-> "exit", layer |-> i, res |-> inner.res, err |-> inner.err]>>,
-           res |-> r, err |-> e, handlerArg |-> inner.handlerArg]
+           e == IF k = "err" THEN i ELSE IF k = "clr" THEN 0 ELSE inner.err
+       IN [log |-> <<[ev |-> "enter", layer |-> i, arg |-> arg]>> \o inner.log \o second.log \o <<[ev |-> "exit", layer |-> i, res |-> inner.res, err |-> inner.err]>>,
+           res |-> r, err |-> e, handlerArg |-> inner.handlerArg \o second.handlerArg]
 Invoke(chain, arg) == Call(chain, Len(chain), arg)
 VARIABLES ctor, prov, added, want
 vars == <<ctor, prov, added, want>>
@@ -34,13 +38,17 @@ R == want
 Layers == 1..Len(Chain(ctor, prov, added))
 EnterIdx(i) == {j \in 1..Len(R.log) : R.log[j].ev = "enter" /\ R.log[j].layer = i}
 ExitIdx(i) == {j \in 1..Len(R.log) : R.log[j].ev = "exit" /\ R.log[j].layer = i}
-OncePerLayer == \A i \in Layers : Cardinality(EnterIdx(i)) = 1 /\ Cardinality(ExitIdx(i)) = 1
+\* number of times layer i is reached: doubled by every "twice" layer above it
+Reach(i) == LET RECURSIVE Pow(_) Pow(n) == IF n = 0 THEN 1 ELSE 2 * Pow(n - 1)
+            IN Pow(Cardinality({j \in Layers : j > i /\ Chain(ctor, prov, added)[j] = "twice"}))
+OncePerLayer == \A i \in Layers : Cardinality(EnterIdx(i)) = Reach(i) /\ Cardinality(ExitIdx(i)) = Reach(i)
+\* every visit of an inner layer lies inside a visit of each outer layer
 Nested == \A i, k \in Layers : i < k =>
-            LET ei == CHOOSE j \in EnterIdx(i) : TRUE  xi == CHOOSE j \in ExitIdx(i) : TRUE
-                ek == CHOOSE j \in EnterIdx(k) : TRUE  xk == CHOOSE j \in ExitIdx(k) : TRUE
-            IN ek < ei /\ xi < xk
+            \A ei \in EnterIdx(i) : \E ek \in EnterIdx(k), xk \in ExitIdx(k) : ek < ei /\ ei < xk
 \* values observed at both ends follow from the last rewrite on the way in / out
 FarSideSeesLastRewrite == R.handlerArg[1] = 1 + Cardinality({i \in Layers : Chain(ctor, prov, added)[i] = "arg"})
+\* a retry layer hands back what its FIRST inner call returned, whatever the second produced
+FirstResultKept == \A i \in Layers : Chain(ctor, prov, added)[i] = "twice" => Len(R.handlerArg) >= 2
 \* the case list for the drivers
 AllCases == {[ctor |-> c, prov |-> p, added |-> a, want |-> Invoke(Chain(c, p, a), 1)] : c \in Lists(MaxLen), p \in Lists(MaxLen), a \in Lists(1)}
 ASSUME JsonSerialize("middleware_cases.json", SetToSeq(AllCases))
